@@ -86,17 +86,29 @@ class Action:
         self.numeric_effects = self._change_effects_signature(
             self.numeric_effects, old_to_new_parameter_names
         )
-        conditional_effects = list(self.conditional_effects)
+        # inside a universal effect the quantified variable hides an action parameter of the same name.
+        conditional_effects = [
+            (conditional_effect, old_to_new_parameter_names)
+            for conditional_effect in self.conditional_effects
+        ]
         for universal_effect in self.universal_effects:
-            conditional_effects.extend(universal_effect.conditional_effects)
+            visible_names = {
+                old_name: new_name
+                for old_name, new_name in old_to_new_parameter_names.items()
+                if old_name != universal_effect.quantified_parameter
+            }
+            conditional_effects.extend(
+                (conditional_effect, visible_names)
+                for conditional_effect in universal_effect.conditional_effects
+            )
 
-        for conditional_effect in conditional_effects:
-            conditional_effect.antecedents.change_signature(old_to_new_parameter_names)
+        for conditional_effect, names_to_change in conditional_effects:
+            conditional_effect.antecedents.change_signature(names_to_change)
             conditional_effect.discrete_effects = self._change_effects_signature(
-                conditional_effect.discrete_effects, old_to_new_parameter_names
+                conditional_effect.discrete_effects, names_to_change
             )
             conditional_effect.numeric_effects = self._change_effects_signature(
-                conditional_effect.numeric_effects, old_to_new_parameter_names
+                conditional_effect.numeric_effects, names_to_change
             )
 
     @staticmethod
